@@ -195,55 +195,52 @@ def run_V(records, w0, salt):
 
 def run_V_components(records, w0, salt):
     """vmap over the *component* axis: build a single-component object from each component's
-    parameters inside vmap, apply the observer, and compare with the eager batched result
+    parameters inside vmap, apply an observer battery, and compare with the eager batched result
     (vmap(f) vs. stacked f - a batch leak in the eager code shows as a mismatch)."""
     L = lib()
     jax, jnp = L["jax"], L["jnp"]
     n = 0
-    for i, rec in enumerate(records):
-        if rec["op"] != "obs" or rec["a"] not in w0.slots:
-            continue
-        s = w0.slots[rec["a"]]
+    for sid in sorted(w0.slots):
+        s = w0.slots[sid]
         if s.tainted or s.kind not in ("measure", "pdf") or s.R < 2:
             continue
-        name = rec["name"]
         o = s.obj
         cls = type(o)
+        D = int(o.D)
         if s.kind == "pdf":
             params = (o.Sigma, o.mu)
-            mk = lambda S, m: cls(Sigma=S[None], mu=m[None])
+            mk = lambda S, m, cls=cls: cls(Sigma=S[None], mu=m[None])
         else:
             params = (o.Lambda, o.nu, o.ln_beta)
-            mk = lambda Lm, nu, lb: cls(Lambda=Lm[None], nu=nu[None], ln_beta=lb[None])
-        if name in ("log_integral", "log_integral_light", "integral", "entropy"):
-            f = lambda *p: getattr(mk(*p), name)()[0]
-            want = A(getattr(ref.clone(o), name)())
-        elif name == "evaluate_ln" and not rec.get("ew"):
-            x = jnp.asarray(rec["x"])
-            f = lambda *p: mk(*p).evaluate_ln(x)[0]
-            want = A(ref.clone(o).evaluate_ln(x))
-        elif name == "integrate" and not any(np.asarray(v).ndim == (3 if k.endswith("_mat") else 2) for k, v in rec.get("kw", {}).items()):
-            kw = {k: jnp.asarray(v) for k, v in rec.get("kw", {}).items()}
-            f = lambda *p: mk(*p).integrate(rec["key"], **kw)[0]
-            want = A(ref.clone(o).integrate(rec["key"], **kw))
-        elif name == "kl" and rec["q"] in w0.slots and not w0.slots[rec["q"]].tainted:
-            q = w0.slots[rec["q"]].obj
-            if int(q.R) == 1:
-                f = lambda *p: mk(*p).kl_divergence(q)[0]
-                want = A(ref.clone(o).kl_divergence(q))
-            elif int(q.R) == s.R:
-                qcls = type(q)
-                got = _wrap("V", lambda: jax.vmap(lambda S, m, S2, m2: cls(Sigma=S[None], mu=m[None]).kl_divergence(qcls(Sigma=S2[None], mu=m2[None]))[0])(o.Sigma, o.mu, q.Sigma, q.mu))
-                common.compare_value("C18.Vc.kl", "kl", A(got), A(ref.clone(o).kl_divergence(q)), step=i)
-                n += 1
-                continue
-            else:
-                continue
-        else:
-            continue
-        got = _wrap("V", lambda: jax.vmap(f)(*params))
-        common.compare_value("C18.Vc." + name, name, A(got), want, step=i, observer=name)
-        n += 1
+            mk = lambda Lm, nu, lb, cls=cls: cls(Lambda=Lm[None], nu=nu[None], ln_beta=lb[None])
+        x = jnp.asarray(ref.generic_points(D, ("Vc", salt, sid))[:3])
+        Amat = jnp.asarray(ref.generic_points(D, ("VcA", salt, sid))[:2])
+        battery = [
+            ("log_integral", lambda q: q.log_integral()),
+            ("evaluate_ln", lambda q: q.evaluate_ln(x)),
+            ("integrate", lambda q: q.integrate("x")),
+            ("integrate", lambda q: q.integrate("xx'")),
+            ("integrate", lambda q: q.integrate("(Ax+a)'(Bx+b)", A_mat=Amat, B_mat=Amat)),
+        ]
+        if s.kind == "pdf":
+            q1 = ref.clone(o).slice(jnp.asarray([0]))
+            battery += [
+                ("entropy", lambda q: q.entropy()),
+                ("kl", lambda q: q.kl_divergence(q1)),
+                ("kl", lambda q: q1.kl_divergence(q)),
+            ]
+        for name, fn in battery:
+            want = A(fn(ref.clone(o)))
+            got = _wrap("V", lambda: jax.vmap(lambda *p: fn(mk(*p))[0])(*params))
+            common.compare_value("C18.Vc." + name, name, A(got), want, slot=sid, observer=name)
+            n += 1
+        if s.kind == "pdf":
+            # paired KL: both sides batched
+            want = A(ref.clone(o).kl_divergence(ref.clone(o).slice(jnp.asarray(list(range(1, s.R)) + [0]))))
+            o2 = ref.clone(o).slice(jnp.asarray(list(range(1, s.R)) + [0]))
+            got = _wrap("V", lambda: jax.vmap(lambda S, m, S2, m2: cls(Sigma=S[None], mu=m[None]).kl_divergence(type(o2)(Sigma=S2[None], mu=m2[None]))[0])(o.Sigma, o.mu, o2.Sigma, o2.mu))
+            common.compare_value("C18.Vc.kl", "kl", A(got), want, slot=sid, observer="kl paired")
+            n += 1
     return n
 
 
@@ -411,7 +408,7 @@ def run(seed, tier, prop="C18"):
         stats.update(w0.stats)
         digests.append(w0.digest())
         for k in range(K):
-            mode = Rng(seed, "c18-mode", k).wchoice(list(MODES), [1.0, 1.5, 1.5, 2.0, 0.7])
+            mode = Rng(seed, "c18-mode", k).wchoice(list(MODES), [1.0, 1.5, 1.5, 2.0, 1.2])
             detail = gen_detail(mode, records, seed, k, cfg, w0)
             if detail is None:
                 continue
